@@ -12,6 +12,7 @@ import FuraxProofs.Lemmas.ArithSound
 import FuraxProofs.Lemmas.Tables
 import FuraxProofs.Lemmas.ScalarModel
 import FuraxProofs.Sem.ListModel
+import FuraxProofs.Lemmas.ArithNegSub
 namespace Furax.C02
 open Furax Op
 
@@ -50,11 +51,24 @@ theorem truediv_den {V} (A : ArithSem V) (k : Rat) (a r : Op) (ha : ArithSem.WFt
     k ≠ 0 ∧ Op.inS r = Op.inS a ∧ Op.outS r = Op.outS a ∧
     ∀ x, A.mem (Op.inS a) x → A.den r x = A.smul (1 / k) (A.den a x) := A.pyTruediv_den k a r ha has hai h
 
-/-- `-A` (for `A` not itself a sum; sums are negated summand by summand, checked differentially) -/
+/-- `-A` for `A` not itself a sum (the complete statement is `neg_den` below) -/
 theorem neg_den_partial {V} (A : ArithSem V) (a r : Op) (ha : ArithSem.WFtop a) (has : StructOK a)
     (hai : A.LazyInvertible a) (hns : a.isAdd = false) (h : pyNeg a = .ok r) :
     Op.inS r = Op.inS a ∧ Op.outS r = Op.outS a ∧
     ∀ x, A.mem (Op.inS a) x → A.den r x = A.smul (-1) (A.den a x) := A.pyNeg_den a r ha has hai hns h
+
+/-- **`-a` for every operand, sums included** (a sum is negated summand by summand): the result denotes minus
+the map.  `NegOK`: `a` is structurally well formed and every summand satisfies what `k * ·` needs. -/
+theorem neg_den {V} (A : ArithSem V) (a r : Op) (ha : A.NegOK a) (h : pyNeg a = .ok r) :
+    Op.inS r = Op.inS a ∧ Op.outS r = Op.outS a ∧
+    ∀ x, A.mem (Op.inS a) x → A.den r x = A.smul (-1) (A.den a x) := A.pyNeg_den_full a r ha h
+
+/-- **`a - b`** is `a + (-b)`: same structure checks as the sum, and the result denotes the difference -/
+theorem sub_den {V} (A : ArithSem V) (a b r : Op) (ha : ArithSem.WFtop a) (hb : A.NegOK b)
+    (h : pySub a b = .ok r) :
+    Op.inS a = Op.inS b ∧ Op.outS a = Op.outS b ∧ Op.inS r = Op.inS a ∧ Op.outS r = Op.outS a ∧
+    ∀ x, A.mem (Op.inS a) x → A.den r x = A.add (A.den a x) (A.smul (-1) (A.den b x)) :=
+  let ⟨h1, h2, h3, h4, _, h6⟩ := A.pySub_den a b r ha hb h; ⟨h1, h2, h3, h4, h6⟩
 
 /-- `+A` is `A` -/
 theorem pos_den (a : Op) : pyPos a = a := rfl
@@ -108,5 +122,18 @@ theorem truediv_den_closed (E : ListSem.Env) (k : Rat) (a r : Op) (ha : ArithSem
     ∀ x : List ℝ, x.length = (Op.inS a).size →
       ListSem.den E r x = (ListSem.den E a x).map fun v => ((1 / k : Rat) : ℝ) * v :=
   (ListSem.listArithSem E).pyTruediv_den k a r ha has hai h
+
+/-- `-a` and `a - b` in the list denotation -/
+theorem neg_den_closed (E : ListSem.Env) (a r : Op) (ha : (ListSem.listArithSem E).NegOK a) (h : pyNeg a = .ok r) :
+    Op.inS r = Op.inS a ∧ Op.outS r = Op.outS a ∧
+    ∀ x : List ℝ, x.length = (Op.inS a).size → ListSem.den E r x = ListSem.vsmul (-1) (ListSem.den E a x) :=
+  ListSem.neg_den_closed E a r ha h
+
+theorem sub_den_closed (E : ListSem.Env) (a b r : Op) (ha : ArithSem.WFtop a)
+    (hb : (ListSem.listArithSem E).NegOK b) (h : pySub a b = .ok r) :
+    Op.inS a = Op.inS b ∧ Op.outS a = Op.outS b ∧ Op.inS r = Op.inS a ∧ Op.outS r = Op.outS a ∧
+    ∀ x : List ℝ, x.length = (Op.inS a).size →
+      ListSem.den E r x = ListSem.vadd (ListSem.den E a x) (ListSem.vsmul (-1) (ListSem.den E b x)) :=
+  ListSem.sub_den_closed E a b r ha hb h
 
 end Furax.C02
